@@ -148,15 +148,21 @@ Ltac box_pair p :=
 
 Ltac side := solve [ lra | ivl ].
 
-(* choose the branch of atan2 from the enclosures of its arguments *)
+(* choose the branch of atan2 from the enclosures of its arguments: the sign facts are established first
+   (cheap), the rewrite happens once *)
+Ltac resolve_one y x :=
+  let H := fresh "S" in
+  first [ assert (H : 0 < x) by side; rewrite (atan2_xpos y x H)
+        | assert (H : 0 < y) by side; rewrite (atan2_ypos y x H)
+        | assert (H : y < 0) by side; rewrite (atan2_yneg y x H)
+        | assert (H : x < 0) by side;
+          let H2 := fresh "S" in
+          first [ assert (H2 : 0 <= y) by side; rewrite (atan2_xneg_ynonneg y x H H2)
+                | assert (H2 : y < 0) by side; rewrite (atan2_xneg_yneg y x H H2) ]; clear H2 ];
+  clear H.
 Ltac resolve_atan2 :=
   repeat match goal with
-  | |- context [atan2 ?y ?x] =>
-      first [ rewrite (atan2_xpos y x) by side
-            | rewrite (atan2_ypos y x) by side
-            | rewrite (atan2_yneg y x) by side
-            | rewrite (atan2_xneg_ynonneg y x) by side
-            | rewrite (atan2_xneg_yneg y x) by side ]
+  | |- context [atan2 ?y ?x] => resolve_one y x
   end.
 
 (* p contains no unevaluated heavy primitive *)
